@@ -103,6 +103,9 @@ def parse_vc(path, into=None):
                     cur.hints.append(('start', 0, text))
                 elif a[0] == 'end':
                     cur.hints.append(('end', 0, text))
+                elif a[1].startswith('~'):
+                    # anchored by the (whitespace-normalised) text the statement starts with
+                    cur.hints.append((a[0], arg.split('~', 1)[1].strip(), text))
                 else:
                     cur.hints.append((a[0], int(a[1]), text))
             elif kind == 'bind':
